@@ -126,6 +126,7 @@ class Decl:
                 counts[pn] = counts.get(pn, 0) + 1
         self.collisions = {pn for pn, c in counts.items() if c > 1}
         self.attr = {}             # (iface, pname) -> attribute name
+        self.mixins = 0
         self.alias = {}            # (iface, pname) -> second attribute name bound to the same property (derived class)
 
         def build(cname, base, ifs, hosted):
@@ -151,6 +152,13 @@ class Decl:
                 def touch(self_):
                     return None
                 attrs['touch'] = O.dbusMethod(touch_iface, 'Touch')(touch)
+            if cid % 5 == 3 and hosted:
+                # the descriptors live in a plain helper class (not a DBusObject) that the exported class inherits from,
+                # before or after the DBusObject base
+                mix = {an_: attrs.pop(an_) for an_ in [self.attr[k_] for k_ in hosted]}
+                Mixin = type(cname + 'Mixin', (object,), mix)
+                self.mixins += 1
+                return type(cname, (Mixin, base) if cid % 2 else (base, Mixin), attrs)
             return type(cname, (base,), attrs)
 
         all_base = [(n, pn) for n, props in base_ifs for pn in props]
@@ -174,6 +182,8 @@ def run_case(ctx, seed, idx):
     saved = dict(I.DBusInterface.knownInterfaces)
     try:
         d = Decl(r, idx)
+        if d.mixins:
+            ctx.count('classes_with_descriptors_in_a_plain_mixin', d.mixins)
         model = {}          # (iface, pname) -> value
         keys = sorted(d.props)
         first_touch = list(keys)
